@@ -126,8 +126,10 @@ def emit_side(F, res, pol):
             if len(calls) != 1 or len(ps) != 1:
                 bad = '%s appends %d item(s) and assigns %d index(es) per iteration' % (impl.split(' as ')[0][1:], len(calls), len(ps))
                 continue
-            if ps[0][1]['loops'] != calls[0]['loops']:
-                bad = 'the index is not assigned in the same iteration that appends the item'
+            inst = fl.loop_instances(w.trace)
+            if ps[0][1]['loops'] != calls[0]['loops'] or inst.get(id(ps[0][1])) != inst.get(id(calls[0])):
+                bad = 'the index is not assigned in the same iteration that appends the item (assignment order and emission order ' \
+                      'can differ)'
                 continue
             # the pushed id belongs to the item being appended: both project the same loop element
             pid = show(ps[0][1]['args'][1])
